@@ -2,6 +2,8 @@
    model, and `!oob` if any flag (area bound or kernel operand condition) is false. -/
 import Mpir.Proto
 import Mpir.Model.PowmUiMem
+import Mpir.Model.PowmCrtMem
+import Mpir.Ops.PowmLimb
 namespace Mpir.Ops.PowmUiMem
 open Mpir Mpir.Powm Mpir.PowmUi
 
@@ -14,6 +16,13 @@ def handle : Handler
           | .div0 => [.err "div0"]
           | .mk rp rn => if r.wf then [natTok (val (rp.take rn))] else [.err "malformed"]
         some (if mpzPowmUiOk b e.toNat m then v else v ++ [.err "oob"])
+  | "mpz_powm_m", [.num _, .num b, .num e, .num m] =>
+      -- mpz_powm with the index-range flags of its CRT path (Mpir/Model/PowmCrtMem.lean)
+      let r := mpz_powm b e m
+      let v : List Tok := match r with
+        | .div0 => [.err "div0"]
+        | .mk rp rn => if r.wf then [natTok (val (rp.take rn))] else [.err "malformed"]
+      some (if Mpir.PowmCrt.mpzPowmCrtOk (natLimbs m.natAbs) Mpir.Ops.PowmLimb.binvItch then v else v ++ [.err "oob"])
   | _, _ => none
 
 end Mpir.Ops.PowmUiMem
